@@ -135,3 +135,37 @@ def _six_octet_cases(tier, T):
 @standin("C08", cases=_six_octet_cases, family=lambda: [dict(T=c) for c in float_classes() if c.payload_type is DPTArray and c.payload_length > 4], kind="enum-native", exhaustive=False, bound="DPT 242/243/249.600 (round(x, 5) / round(x, 1) have no encoding): every value of each 16 bit field with the other fields from a sample set and all validity-flag patterns + seeded random payloads")
 def six_octet_roundtrip(T, octets):
     _roundtrip(T, octets)
+
+
+# ------------------------------------------------------------------ partially valid colours: the merge that carries the last valid fields
+
+from pyvc.api import Choice as _Choice, Int as _Int  # noqa: E402
+from xknx.dpt.dpt_242 import XYYColor as _XYY  # noqa: E402
+from xknx.dpt.dpt_251 import RGBWColor as _RGBW  # noqa: E402
+
+_CH = _Choice(None, _Int(0, 255))
+
+
+@lemma("C08", params=dict(r1=_CH, g1=_CH, b1=_CH, w1=_CH, r2=_CH, g2=_CH, b2=_CH, w2=_CH))
+def rgbw_merge_takes_every_valid_field_also_zero(r1, g1, b1, w1, r2, g2, b2, w2):
+    """RGBWColor.__or__ (what RemoteValueColorRGBW / Light use to keep the last valid channels of DPT 251.600
+    between telegrams): every field of the newer value that is valid - 0 included - replaces the older one,
+    an invalid (None) field keeps it; so a fully valid payload decodes, merges and re-encodes to the same
+    meaning whatever came before."""
+    m = _RGBW(r1, g1, b1, w1) | _RGBW(r2, g2, b2, w2)
+    assert m.red == (r2 if r2 is not None else r1)
+    assert m.green == (g2 if g2 is not None else g1)
+    assert m.blue == (b2 if b2 is not None else b1)
+    assert m.white == (w2 if w2 is not None else w1)
+    if None not in (r2, g2, b2, w2):
+        assert m == _RGBW(r2, g2, b2, w2)
+
+
+@lemma("C08", params=dict(x1=_Choice(None, _Int(0, 65535)), br1=_CH, x2=_Choice(None, _Int(0, 65535)), br2=_CH))
+def xyy_merge_takes_every_valid_field_also_zero(x1, br1, x2, br2):
+    """XYYColor.__or__ likewise (DPT 242.600; the colour is a pair, here (x, x))."""
+    c1 = None if x1 is None else (x1, x1)
+    c2 = None if x2 is None else (x2, x2)
+    m = _XYY(c1, br1) | _XYY(c2, br2)
+    assert m.color == (c2 if c2 is not None else c1)
+    assert m.brightness == (br2 if br2 is not None else br1)
